@@ -3,6 +3,7 @@ package parse
 import (
 	"errors"
 	"strconv"
+	"unicode/utf16"
 	"unicode/utf8"
 )
 
@@ -73,6 +74,16 @@ func unquoteString(s string) (string, error) {
 				}
 				r = rune(num)
 				i += 4
+				// a character beyond U+FFFF is written as the two escapes of its
+				// surrogate pair.
+				if utf16.IsSurrogate(r) && i+6 <= len(s) && s[i] == '\\' && s[i+1] == 'u' {
+					if lo, err := strconv.ParseUint(s[i+2:i+6], 16, 32); err == nil {
+						if pair := utf16.DecodeRune(r, rune(lo)); pair != utf8.RuneError {
+							r = pair
+							i += 6
+						}
+					}
+				}
 			} else {
 				replacement, ok := unescapes[r]
 				if r == '"' {
